@@ -5,8 +5,12 @@
 //!   jvh trace   : drive the real code with seeded random histories and record one event
 //!                 per specification action for TLC trace validation     (impl -> spec)
 
+mod crash;
 mod exec;
+mod iohook;
+mod parse;
 mod profiles;
+mod rec;
 
 use std::{
     collections::{BTreeSet, HashMap},
@@ -114,6 +118,7 @@ fn main() {
     let code = match argv[1].as_str() {
         "replay" => replay(&a),
         "trace" => trace(&a),
+        "crash-run" => crash::crash_run(&a),
         _ => {
             eprintln!("unknown subcommand");
             2
@@ -143,6 +148,13 @@ fn replay(a: &Args) -> i32 {
     let mut bad = 0i64;
     let mut steps_run = 0i64;
     let mut profs: HashMap<(usize, usize), Profile> = HashMap::new();
+    // optionally record the run (public calls, hook points, I/O) for TLC trace validation
+    let tout = a.s("trace-out", "");
+    let tracing = !tout.is_empty();
+    if tracing {
+        rec::install_hook_recorder();
+    }
+    let mut started = false;
     for (idx, line) in rd.lines().enumerate() {
         let line = line.unwrap();
         if (idx as i64) < skip || line.trim().is_empty() {
@@ -156,8 +168,21 @@ fn replay(a: &Args) -> i32 {
         let path = dir.join(format!("r{}.db", idx % 4));
         let _ = std::fs::remove_file(&path);
         let opts = opts_from(a, &prof);
-        let mut world = World::new(prof, path.clone(), opts);
+        if tracing {
+            if !started {
+                rec::start(&tout, Some(prof.clone()), opts.pagesize, true);
+                rec::emit(json!({"ev":"hdr","profile":pname,"nkeys":nk,"nvals":nv}));
+                started = true;
+            }
+            iohook::set_target(&path);
+            rec::emit(json!({"ev":"reset","h":idx,"pagesize":opts.pagesize,"np0":opts.num_pages}));
+        }
+        let ps = opts.pagesize;
+        let mut world = World::new(prof.clone(), path.clone(), opts);
         let r = world.open();
+        if tracing {
+            rec::emit(json!({"ev":"opened","h":idx,"res":r}));
+        }
         let mut dev: Option<Value> = None;
         if r != json!(["ok"]) {
             dev = Some(json!({"step": -1, "got": r, "exp": [["ok"]], "what": "open"}));
@@ -174,6 +199,9 @@ fn replay(a: &Args) -> i32 {
                     "commit" => world.commit(t),
                     "drop" => world.drop_tx(t),
                     "reopen" => {
+                        if tracing {
+                            rec::emit(json!({"ev":"closing"}));
+                        }
                         let c = world.close();
                         if c != json!(["ok"]) {
                             c
@@ -184,6 +212,13 @@ fn replay(a: &Args) -> i32 {
                     "check" => world.check(),
                     _ => json!(["unsupported-step"]),
                 };
+                if tracing {
+                    let mut e = st.clone();
+                    e["ev"] = json!(act);
+                    e["res"] = got.clone();
+                    e.as_object_mut().unwrap().remove("exp");
+                    rec::emit(e);
+                }
                 if st.get("exp_any").is_some() {
                     continue;
                 }
@@ -195,6 +230,12 @@ fn replay(a: &Args) -> i32 {
                 }
             }
         }
+        if tracing {
+            rec::emit(json!({"ev":"closing"}));
+            world.close();
+            rec::emit(json!({"ev":"closed"}));
+            emit_parse(&world.path, ps, &prof);
+        }
         drop(world);
         done += 1;
         if let Some(d) = dev {
@@ -205,6 +246,10 @@ fn replay(a: &Args) -> i32 {
     writeln!(w, "{}", json!({"summary": true, "histories": done, "deviations": bad, "steps": steps_run}))
         .unwrap();
     w.flush().unwrap();
+    if tracing {
+        rec::finish();
+        iohook::deactivate();
+    }
     let _ = std::fs::remove_dir_all(&dir);
     let _ = std::fs::remove_file(&progress);
     0
@@ -214,14 +259,11 @@ fn replay(a: &Args) -> i32 {
 // random driver (impl -> spec)
 // ------------------------------------------------------------------------------------------
 
-struct Rec {
-    w: BufWriter<File>,
-    n: u64,
-}
+/// thin handle on the global recorder (rec.rs)
+struct Rec {}
 impl Rec {
     fn ev(&mut self, v: Value) {
-        self.n += 1;
-        writeln!(self.w, "{}", v).unwrap();
+        rec::emit(v);
     }
 }
 
@@ -245,9 +287,20 @@ struct Driver<'a> {
     /// false: the file starts at 4 pages and grows, so (single thread!) no reader may be
     /// open while a writer commits -- growth would wait for the reader forever (documented)
     presized: bool,
+    /// number of successful commits so far; with `states` a dump of the committed content is
+    /// recorded after every commit (the reference for crash / fault outcomes)
+    commits: i64,
+    states: bool,
 }
 
 impl<'a> Driver<'a> {
+    fn state_event(&mut self) {
+        if self.states {
+            let d = self.world.dump();
+            self.rec.ev(json!({"ev":"state","k":self.commits,"dump":d}));
+        }
+    }
+
     fn do_op(&mut self, mut o: Value) -> Value {
         tick();
         let t = o["t"].as_i64().unwrap();
@@ -465,6 +518,7 @@ impl<'a> Driver<'a> {
                 None => {
                     if r < 6 && self.readers.is_empty() {
                         // close + reopen
+                        self.rec.ev(json!({"ev":"closing"}));
                         let c = self.world.close();
                         let o = if c == json!(["ok"]) { self.world.open() } else { c };
                         self.rec.ev(json!({"ev":"reopen","res":o}));
@@ -506,6 +560,8 @@ impl<'a> Driver<'a> {
                         if res != json!(["ok"]) {
                             return; // the trace ends with the failing commit
                         }
+                        self.commits += 1;
+                        self.state_event();
                         let chk = self.world.check();
                         self.rec.ev(json!({"ev":"check","res":chk}));
                         // a fresh transaction observes the committed state in full
@@ -535,6 +591,8 @@ impl<'a> Driver<'a> {
         if let Some(t) = self.writer {
             let res = self.end(t, true);
             if res == json!(["ok"]) {
+                self.commits += 1;
+                self.state_event();
                 let chk = self.world.check();
                 self.rec.ev(json!({"ev":"check","res":chk}));
             }
@@ -544,6 +602,7 @@ impl<'a> Driver<'a> {
             self.end(rt, false);
         }
         // final: reopen and observe everything
+        self.rec.ev(json!({"ev":"closing"}));
         let c = self.world.close();
         let o = if c == json!(["ok"]) { self.world.open() } else { c };
         self.rec.ev(json!({"ev":"reopen","res":o}));
@@ -574,6 +633,18 @@ impl<'a> Driver<'a> {
     }
 }
 
+/// the whole file, decoded by the independent parser, for comparison with the state the
+/// specification reconstructed from the write events
+fn emit_parse(path: &std::path::Path, ps: u64, prof: &Profile) {
+    let data = std::fs::read(path).unwrap_or_default();
+    let fv = parse::parse_file(&data, ps, prof);
+    let metas: Vec<Value> =
+        fv.metas.iter().map(|m| m.as_ref().map(|m| m.json()).unwrap_or(json!({"hash_ok": false}))).collect();
+    let pages: Vec<Value> = fv.pages.iter().map(|(id, d)| json!([id, d])).collect();
+    rec::emit(json!({"ev":"parse","metas":metas,"chosen":fv.chosen.map(|c| c as i64).unwrap_or(-1),
+                     "flen": data.len() as u64 / ps, "pages": pages}));
+}
+
 fn trace(a: &Args) -> i32 {
     let seed = a.n("seed", 1) as u64;
     let n = a.n("n", 10);
@@ -584,7 +655,16 @@ fn trace(a: &Args) -> i32 {
     let out = a.s("out", "/dev/stdout");
     let dir = scratch_dir();
     let prof = Profile::new(&pname, nk as usize, nv as usize);
-    let mut rec = Rec { w: BufWriter::new(File::create(&out).unwrap()), n: 0 };
+    let l1 = a.n("l1", 0) != 0; // also record hook points and I/O (for Trace_Page)
+    let ps = a.n("pagesize", prof.pagesize as i64) as u64;
+    rec::start(&out, Some(prof.clone()), ps, a.n("decode", 1) != 0);
+    if l1 {
+        rec::install_hook_recorder();
+    }
+    if a.has("raw") {
+        rec::start_raw(&a.s("raw", ""));
+    }
+    let mut rec = Rec {};
     let keybytes: Vec<Vec<u8>> = prof.keys.iter().map(|k| k.iter().take(12).cloned().collect()).collect();
     rec.ev(json!({"ev":"hdr","profile":pname,"nkeys":nk,"nvals":nv,"seed":seed,
                   "keyprefix":keybytes}));
@@ -597,9 +677,14 @@ fn trace(a: &Args) -> i32 {
         if !a.has("num-pages") {
             opts.num_pages = if presized { 16384 } else { 4 };
         }
+        if l1 {
+            iohook::set_target(&path);
+        }
+        rec::reset_write_index();
+        rec.ev(json!({"ev":"reset","h":h,"presized":presized,"pagesize":ps,"np0":opts.num_pages}));
         let mut world = World::new(prof.clone(), path, opts);
         let r = world.open();
-        rec.ev(json!({"ev":"reset","h":h,"res":r,"presized":presized}));
+        rec.ev(json!({"ev":"opened","h":h,"res":r}));
         if r != json!(["ok"]) {
             continue;
         }
@@ -616,11 +701,23 @@ fn trace(a: &Args) -> i32 {
             next_t: 1,
             readback: a.n("readback", 1) != 0,
             presized,
+            commits: 0,
+            states: a.n("states", 0) != 0,
         };
+        d.state_event();
         d.run(len);
+        let Driver { mut world, .. } = d;
+        rec.ev(json!({"ev":"closing"}));
+        world.close();
+        if l1 {
+            rec.ev(json!({"ev":"closed"}));
+            emit_parse(&world.path, ps, &prof);
+        }
     }
-    rec.w.flush().unwrap();
+    let n = rec::count();
+    rec::finish();
+    iohook::deactivate();
     let _ = std::fs::remove_dir_all(&dir);
-    eprintln!("events {}", rec.n);
+    eprintln!("events {}", n);
     0
 }
